@@ -46,12 +46,17 @@ type env struct {
 	hdr   string
 	o     *proto.Out
 	stuck bool
+	count bool
 }
 
 // quiesce waits until every goroutine started by the code under test is either finished or parked in
-// clock.Sleep (registered with the manual clock).
+// clock.Sleep (registered with the manual clock).  A new goroutine is counted by runtime.NumGoroutine as soon
+// as the `go` statement has executed, so the condition is exact as long as `base` is.
 func (e *env) quiesce() {
-	deadline := time.Now().Add(200 * time.Millisecond)
+	if e.stuck {
+		return
+	}
+	deadline := time.Now().Add(5 * time.Second)
 	for i := 0; ; i++ {
 		if runtime.NumGoroutine() <= e.base+len(e.clk.Pending()) {
 			return
@@ -62,10 +67,33 @@ func (e *env) quiesce() {
 		}
 		time.Sleep(20 * time.Microsecond)
 		if time.Now().After(deadline) {
-			e.o.Count("quiesce-timeout")
 			e.stuck = true
 			return
 		}
+	}
+}
+
+// globalBase is the number of goroutines of the idle harness (measured before the first case).
+var globalBase = -1
+
+// waitIdle makes sure no goroutine of an earlier case is still alive.
+func waitIdle() bool {
+	if globalBase < 0 {
+		globalBase = runtime.NumGoroutine()
+	}
+	deadline := time.Now().Add(5 * time.Second)
+	for runtime.NumGoroutine() > globalBase {
+		time.Sleep(50 * time.Microsecond)
+		if time.Now().After(deadline) {
+			return false
+		}
+	}
+	return true
+}
+
+func (e *env) cnt(k string) {
+	if e.count {
+		e.o.Count(k)
 	}
 }
 
@@ -328,10 +356,10 @@ func (e *env) cacheOp(w []string) string {
 		err := e.mc.Set(k, v, float64(ttl8)/8)
 		e.quiesce()
 		if err != nil {
-			e.o.Count("cache-set-full")
+			e.cnt("cache-set-full")
 			return "err:full"
 		}
-		e.o.Count("cache-set-ok")
+		e.cnt("cache-set-ok")
 		return "ok"
 	case "get", "has", "del":
 		if len(w) != 2 {
@@ -345,10 +373,10 @@ func (e *env) cacheOp(w []string) string {
 		case "get":
 			v, found := e.mc.Get(k)
 			if found {
-				e.o.Count("cache-hit")
+				e.cnt("cache-hit")
 				return "hit v=" + proto.Enc(v)
 			}
-			e.o.Count("cache-miss")
+			e.cnt("cache-miss")
 			return "miss"
 		case "has":
 			return strconv.FormatBool(e.mc.Has(k))
@@ -418,10 +446,10 @@ func (e *env) pluginOp(w []string) string {
 		}
 		switch a := act.(type) {
 		case *actions.NoOpAction:
-			e.o.Count(e.mode + "-noop")
+			e.cnt(e.mode + "-noop")
 			return "noop"
 		case *actions.EarlyResponseAction:
-			e.o.Count(e.mode + "-replay")
+			e.cnt(e.mode + "-replay")
 			tag, hasTag := a.Headers["X-Tag"]
 			ra, hasRa := a.Headers[e.hdr]
 			extra := len(a.Headers)
@@ -454,9 +482,26 @@ func (e *env) pluginOp(w []string) string {
 	return "bad-op"
 }
 
+// exec runs one case; if the process could not be brought to quiescence (machine overloaded) the case is
+// run again from scratch, and a persistent failure is reported loudly instead of producing unreliable answers.
 func exec(c proto.Case, o *proto.Out) []string {
+	for attempt := 0; attempt < 3; attempt++ {
+		if !waitIdle() {
+			o.Count("harness-idle-timeout")
+			globalBase = runtime.NumGoroutine()
+		}
+		outs, stuck := execOnce(c, o, attempt == 0)
+		if !stuck {
+			return outs
+		}
+		o.Count("harness-quiesce-retry")
+	}
+	panic("harness: no quiescence after 3 attempts (overloaded machine?)")
+}
+
+func execOnce(c proto.Case, o *proto.Out, count bool) ([]string, bool) {
 	outs := make([]string, len(c.Ops))
-	e := &env{o: o, base: runtime.NumGoroutine()}
+	e := &env{o: o, base: globalBase, count: count}
 	hit, missAfterStore := false, false
 	stored := map[string]bool{}
 	for i, op := range c.Ops {
@@ -510,7 +555,7 @@ func exec(c proto.Case, o *proto.Out) []string {
 		e.quiesce()
 	}
 	if e.stuck {
-		o.Count("case-with-quiesce-timeout")
+		return outs, true
 	}
 	if e.mode != "" {
 		o.Count("mode-" + e.mode)
@@ -518,7 +563,7 @@ func exec(c proto.Case, o *proto.Out) []string {
 	if hit && missAfterStore {
 		o.NonTrivial(strings.Join(c.Ops, "|") + "#" + strings.Join(outs, "|"))
 	}
-	return outs
+	return outs, false
 }
 
 func main() {
